@@ -8,6 +8,7 @@ import (
 	"context"
 	"encoding/json"
 	"fmt"
+	"io"
 	"math/rand/v2"
 	"os"
 	"path/filepath"
@@ -16,6 +17,8 @@ import (
 	"sync"
 	"sync/atomic"
 	"time"
+
+	bs "github.com/danthegoodman1/bloomsearch"
 )
 
 func init() {
@@ -1347,6 +1350,98 @@ func pTimeFlush(p *pipeCtx) {
 	n = p.c.pick(6, 30)
 	for i := 0; i < n; i++ {
 		pTimeAfterEarlierFlush(p, i)
+	}
+	n = p.c.pick(3, 10)
+	for i := 0; i < n; i++ {
+		pLimitFlushDuringMerge(p, i)
+	}
+}
+
+// slowOpenStore delays OpenFile (what a merge does once per source block); everything else passes through.
+type slowOpenStore struct {
+	bs.DataStore
+	delay atomic.Int64 // nanoseconds
+}
+
+func (s *slowOpenStore) OpenFile(ctx context.Context, ptr []byte) (io.ReadSeekCloser, error) {
+	if d := time.Duration(s.delay.Load()); d > 0 {
+		time.Sleep(d)
+	}
+	return s.DataStore.OpenFile(ctx, ptr)
+}
+
+// Maintenance does not hold up acknowledgements: while a Merge over many files is reading its sources slowly, a
+// batch that reaches the row limit (or, in the other half of the runs, one that is flushed by the ticker) is
+// written and answered as promptly as on an idle engine; no Flush, no Stop. A plain engine, judged on the Go side
+// (the pipeline model has no merge).
+func pLimitFlushDuringMerge(p *pipeCtx, idx int) {
+	ctx := context.Background()
+	cfg := bs.DefaultBloomSearchEngineConfig()
+	cfg.MaxBufferedRows = 1
+	cfg.MaxBufferedTime = time.Hour
+	byTime := idx%2 == 1
+	if byTime {
+		cfg.MaxBufferedRows = 1000
+		cfg.MaxBufferedTime = 60 * time.Millisecond
+	}
+	store := &slowOpenStore{DataStore: newMemDataStore()}
+	eng, err := bs.NewBloomSearchEngine(cfg, bs.NewMemoryMetaStore(), store)
+	must(err)
+	eng.Start()
+	defer func() {
+		sctx, cancel := context.WithTimeout(ctx, 30*time.Second)
+		eng.Stop(sctx)
+		cancel()
+	}()
+	nFiles := 8 + p.c.intn(3)
+	for i := 0; i < nFiles; i++ {
+		done := make(chan error, 1)
+		must(eng.IngestRows(ctx, []map[string]any{{"id": i, "v": "seed"}}, done))
+		if byTime {
+			must(eng.Flush(ctx))
+		}
+		must(<-done)
+	}
+	perOpen := 250 * time.Millisecond
+	store.delay.Store(int64(perOpen))
+	mergeDone := make(chan error, 1)
+	go func() { _, err := eng.Merge(ctx); mergeDone <- err }()
+	time.Sleep(100 * time.Millisecond) // the merge is inside its first slow open
+	bound := 1200 * time.Millisecond
+	done := make(chan error, 1)
+	t0 := time.Now()
+	must(eng.IngestRows(ctx, []map[string]any{{"id": 1000 + idx, "v": "during-merge"}}, done))
+	var ackErr error
+	answered, mergeRunning := false, true
+	select {
+	case ackErr = <-done:
+		answered = true
+	case <-time.After(bound):
+	}
+	lat := time.Since(t0)
+	select {
+	case <-mergeDone:
+		mergeRunning = false
+	default:
+	}
+	store.delay.Store(0)
+	desc := map[string]any{"kind": "limit-flush-during-merge", "trigger": map[bool]string{false: "row limit", true: "MaxBufferedTime"}[byTime], "files": nFiles,
+		"open_delay_ms": perOpen.Milliseconds(), "latency_ms": lat.Milliseconds(), "merge_still_running": mergeRunning}
+	p.c.count([]string{"C10"}, fmt.Sprintf("flush-during-merge-%d-%v", idx, byTime), mergeRunning, desc)
+	p.c.dist("flush_during_merge", fmt.Sprintf("trigger=%v merge_running_at_ack=%v", desc["trigger"], mergeRunning))
+	if !answered {
+		p.c.violation("", fmt.Sprintf("a batch that reached its flush trigger (%s) while a Merge was reading its sources was not answered within %v (merge still running: %v); responsive flush path, no Flush/Stop",
+			desc["trigger"], bound, mergeRunning), desc)
+		select {
+		case <-done:
+		case <-time.After(20 * time.Second):
+		}
+	} else if ackErr != nil {
+		p.c.violation("", "a batch flushed during a Merge on healthy stores was answered with an error: "+ackErr.Error(), desc)
+	}
+	select {
+	case <-mergeDone:
+	case <-time.After(30 * time.Second):
 	}
 }
 
